@@ -29,7 +29,7 @@ def main(argv):
     if '--tier' in argv:
         tier = argv[argv.index('--tier') + 1]
     ids = [a for a in argv[1:] if not a.startswith('--') and a != tier]
-    names = sorted(d for d in os.listdir(SEEDED) if os.path.isdir(os.path.join(SEEDED, d)))
+    names = sorted(d for d in os.listdir(SEEDED) if os.path.isfile(os.path.join(SEEDED, d, 'meta.json')))
     if ids:
         names = [n for n in names if n in ids]
     results = {}
